@@ -1,6 +1,7 @@
 package main
 
 import (
+	"bytes"
 	"crypto/ed25519"
 	"fmt"
 	"time"
@@ -153,7 +154,8 @@ func runC06(c *Ctx) {
 				signer = ed25519.PrivateKey(t.priv)
 			}
 			inner := r.Bytes(61 + r.Intn(300))
-			e, nerr := encrypted_leaseset.NewEncryptedLeaseSet(sigType, cp(k.pub), uint32(r.U64()), 1+uint16(r.U64()%65535), flags, off, inner, signer)
+			blindedArg := cp(k.pub)
+			e, nerr := encrypted_leaseset.NewEncryptedLeaseSet(sigType, blindedArg, uint32(r.U64()), 1+uint16(r.U64()%65535), flags, off, inner, signer)
 			if nerr != nil {
 				c.Check("constructor_accepts_admissible", false, "NewEncryptedLeaseSet", nil, "", fmt.Sprintf("%v", nerr))
 				continue
@@ -190,6 +192,14 @@ func runC06(c *Ctx) {
 				okw = ok2 && e2 == nil
 			}
 			c.Check("signed_verifies_after_wire", okw && v, "CreateOfflineSignature(transient type)", [][]byte{ob, u64b(uint64(tt))}, "", fmt.Sprintf("transient type %d: did not verify after the wire (parse err=%v)", tt, perr))
+			// NewOfflineSignature documents defensive copies of its slice arguments ("to prevent caller
+			// mutation from corrupting the struct's internal state"): reusing the key buffer for the
+			// next key must not reach into a value constructed earlier.  (Constructors that do not
+			// document copies, e.g. NewEncryptedLeaseSet, are not held to this: C06 does not ask it.)
+			scribble(tkey)
+			ok3, verr3 := o.VerifySignature(k.pub)
+			c.Check("signed_verifies_before_wire", ok3 && verr3 == nil && bytes.Equal(o.Bytes(), ob), "CreateOfflineSignature(transient type)", [][]byte{ob, u64b(uint64(tt))}, "",
+				fmt.Sprintf("transient type %d: after the caller reused its key buffer the constructed value changed (verifies=%v)", tt, ok3))
 		}
 		// ---- LeaseSet2 (recorded finding D7: the constructor stores a placeholder signature)
 		if i < c.N(8, 100) {
